@@ -26,6 +26,7 @@ EXPLANATION = (
     "is_type_compatible(output type, input type) in that argument order; (R7) the shared-output check compares every unordered pair of producers "
     "(the 'ordered' relation is not transitive). (R8) gate-kind exhaustiveness: wherever a concrete gate class is tested with isinstance, the classes tested for that variable cover every concrete gate kind or the variable is then used through an attribute only the tested class declares — a validator narrowed from GateNode to one kind silently skips the others. (R9) the Union rule of strict type checking calls get_args on a type only on paths where that type is known to be a Union (a parameterised generic is never split into its type arguments), and the generic rule answers 'compatible' after taking both sides' type arguments only for an unparameterised side or by the pairwise comparison. (R10) no validator narrows a check to data outputs (emit names are outputs too)."
     " R6 also requires that no (edge, value) pair is skipped (each iteration of the loop chain edges > values > producers reaches the next loop, the innermost one the compatibility question or a rejection, evaluated for a value-carrying data edge), that only data edges are typed (no rejection reachable for an ordering or control edge, or such edges name no value), and that the producer side ranges over every node producing the value name whenever data edges are drawn from the first producer of a shared name only."
+    " R1 also requires that nested-graph node names reach a check of their own on the branch that skips the identifier test, and that both endpoints of every recorded explicit edge are looked up in the node table whatever their spelling; R7 also requires that a producer listed twice for one name is rejected (a node is neither exclusive with nor ordered after itself)."
 )
 NOT_DECIDED = "The type-compatibility relation itself (a function over type objects) and the correctness of each individual validator's predicate; position independence is argued from the wiring, not tested."
 
@@ -435,7 +436,7 @@ def run(ctx) -> None:
         # len(set(..)) != len(..)) that dominates the loop
         dom7 = dominators(vcfg7.entry)
         dup_tests = [t for t in vcfg7.nodes if t.kind == "test" and t.ast is not None and (".count(" in src(t.ast) or ("len(set(" in src(t.ast) and "len(" in src(t.ast).replace("len(set(", "")))]
-        dup_guard_before = ln7 is not None and any(any(x.kind == "stmt" and isinstance(x.ast, ast.Raise) for x, l, _ in t.succ if l == "T") and lp.lineno > t.lineno and not contains(lp, t.ast) for t in dup_tests)
+        dup_guard_before = ln7 is not None and any(any(x.kind == "stmt" and isinstance(x.ast, ast.Raise) for x, l, _ in t.succ if l in ("T", "F")) and lp.lineno > t.lineno and not contains(lp, t.ast) for t in dup_tests)
         ok7 = self_ok or dedup_elsewhere or dup_guard_before
         rep.add("C19.R7", f"{voc_f.qname}:self-pair-rejected#{n_pairs}", ok7, f"{voc_f.module.rel}:{lp.lineno}", "a node listed twice for one name is rejected" if ok7 else "a node that declares the same output name twice pairs with itself and passes as 'ordered' (has_path(n, n) holds trivially): node(output_name=('a', 'a')) is accepted, the graph reports outputs ('a',) and the first returned value is silently lost")
     if n_pairs < 2:
@@ -667,4 +668,8 @@ VARIANTS = [
     Variant("types-ordering-edges-checked", VA, replace_once("        if edge_data.get(\"edge_type\") != \"data\":\n            continue  # control and ordering (emit/wait_for) edges carry no typed value\n", ""), {"C19.R6"}),
     Variant("types-edge-source-only", VA, replace_once("            producers = [source_node] + [n for n in nodes.values() if n is not source_node and value_name in n.outputs]\n", "            producers = [source_node]\n"), {"C19.R6"}),
     Variant("twin-types-skip-by-kind-set", VA, replace_once("        if edge_data.get(\"edge_type\") != \"data\":", "        if edge_data.get(\"edge_type\") in (\"control\", \"ordering\"):"), set()),
+    Variant("twin-edge-endpoints-via-get", CORE, chain(replace_once("            if src not in self._nodes:\n                raise GraphConfigError(f\"Edge references unknown source node '{src}'\")\n", "            if self._nodes.get(src) is None:\n                raise GraphConfigError(f\"Edge references unknown source node '{src}'\")\n"), replace_once("            if dst not in self._nodes:\n                raise GraphConfigError(f\"Edge references unknown target node '{dst}'\")\n", "            if self._nodes.get(dst) is None:\n                raise GraphConfigError(f\"Edge references unknown target node '{dst}'\")\n")), set()),
+    Variant("edge-target-not-looked-up", CORE, replace_once("            if dst not in self._nodes:\n                raise GraphConfigError(f\"Edge references unknown target node '{dst}'\")\n", ""), {"C19.R1"}),
+    Variant("self-pair-not-rejected", CO, sub_once(r"    # A node that lists one output name twice.*?distinct names\"\n                \)\n\n", ""), {"C19.R7"}),
+    Variant("graph-node-names-unchecked", VA, replace_once("            _validate_graph_name(node.name)\n            continue\n", "            continue\n"), {"C19.R1"}),
 ]
